@@ -1612,10 +1612,13 @@ func verifC10WhenDone(args []vsx) vsx {
 			continue
 		}
 		k := a.k
-		if _, seen := counts[k]; !seen {
-			mu.Lock()
+		mu.Lock() // callbacks registered after the exit are already running: they write the map
+		_, seen := counts[k]
+		if !seen {
 			counts[k] = 0
-			mu.Unlock()
+		}
+		mu.Unlock()
+		if !seen {
 			keys = append(keys, k)
 		}
 		registered++
